@@ -73,6 +73,11 @@ def cases(tier, rng):
 def _dig(tx, d):
     from bitcoinutils.script import Script
     spks = [Script([tok_py(x) for x in s]) for s in d["spks"]]
+    if d["ext"] == 0 and d["i"] % 2 == 0:
+        # key path is the documented default (ext_flag=0, and sighash=TAPROOT_SIGHASH_ALL when that is the type): rely on it
+        if d["ht"] == 0 and len(d["amts"]) % 2 == 0:
+            return tx.get_transaction_taproot_digest(d["i"], spks, d["amts"]).hex()
+        return tx.get_transaction_taproot_digest(d["i"], spks, d["amts"], sighash=d["ht"]).hex()
     return tx.get_transaction_taproot_digest(d["i"], spks, d["amts"], d["ext"], script=Script([tok_py(x) for x in d["leaf"]]), sighash=d["ht"]).hex()
 
 
